@@ -453,6 +453,10 @@ Definition check_xfer_shapes (f : xfer_facts) : bool :=
   && list_string_eqb (xf_offset_init f) ["restart_offset=0"; "transfer_offset=0"]
   (* the builders of MLST / MLSD / LIST answers keep no state of their own: the only attributes of the
      server object they touch are these helpers (a per-server cache of answers would show up here) *)
+  (* the workers touch the backend through ONE call each: the open of real_path itself (no temporary
+     sibling name, no rename, no unlink) *)
+  && list_string_eqb (xf_worker_fs_calls f)
+       ["conn.path_io.open(real_path, mode=file_mode)"; "--"; "conn.path_io.open(real_path, mode='rb')"]
   && list_string_eqb (xf_observer_state f)
        ["_build_mlsx_facts_from_stats"; "_format_mlsx_time"; "build_list_mtime"; "build_list_string";
         "build_mlsx_string"; "encoding"; "get_paths"]
